@@ -999,6 +999,8 @@ class RZILTransformer(Transformer):
             )
         elif isinstance(items[0], list) or not items[1]:
             # This is a compound statement.
+            if isinstance(items[0], list) and items[1]:
+                return items[0] + [items[1]]
             return items[0]
         p: Pure = items[1]
         e: Effect = items[0]
